@@ -26,7 +26,8 @@ MIN_NONTRIVIAL = {"quick": 3000, "thorough": 60000}
 REQUIRED_COUNTERS = {"ref_obs_exiting": {"quick": 300, "thorough": 3000},
                      "ref_extras_seen": {"quick": 20, "thorough": 200},
                      "faults_escaped": {"quick": 500, "thorough": 10000},
-                     "switch_steps": {"quick": 200, "thorough": 2000}}
+                     "switch_steps": {"quick": 200, "thorough": 2000},
+                     "detection_race_cases": {"quick": 40, "thorough": 40}}
 SHARD_TIMEOUT = {"quick": 400, "thorough": 5400}
 INTERPS = ["3.12", "3.11", "3.10", "3.9"]
 
@@ -318,6 +319,97 @@ def switch_leg(spec, res):
             res.violation(kind="mode-switch", step=step, expected=expected, got=got, set_result=r,
                           history=history[-6:], interp=interp)
             break
+    # ---- detection race: a setter call that overlaps the auto-detection self-test -----------------
+    # Thread A triggers auto-detection (state None) and is paused at its k-th executed line inside
+    # _check_trickery_available (line-level yield injection through sys.settrace in that thread only);
+    # thread B then calls set_trickery_enabled(v).  Whatever the interleaving, once B's call has
+    # returned every later extraction on every thread must use v.
+    from stackscope import _lowlevel as LLm
+    det_codes = set()
+
+    def _codes(co):
+        det_codes.add(co)
+        for c in co.co_consts:
+            if isinstance(c, types.CodeType):
+                _codes(c)
+
+    _codes(LLm._check_trickery_available.__code__)
+    race_cases = 0
+    for k in range(1, 60):
+        for v in (False, True):
+            ll.set_trickery_enabled(None)
+            LLm._can_use_trickery = None
+            paused = threading.Event()
+            resume = threading.Event()
+            state = {"n": 0, "hit": False}
+
+            def local_tracer(frame, event, arg):
+                if event == "line" and not state["hit"]:
+                    state["n"] += 1
+                    if state["n"] == k:
+                        state["hit"] = True
+                        paused.set()
+                        resume.wait(30)
+                return local_tracer
+
+            def global_tracer(frame, event, arg):
+                if frame.f_code in det_codes:
+                    return local_tracer
+                return None
+
+            a_result = {}
+
+            def thread_a():
+                sys.settrace(global_tracer)
+                try:
+                    a_result["mode"] = observe_mode()
+                except BaseException as ex:  # noqa
+                    a_result["exc"] = repr(ex)
+                finally:
+                    sys.settrace(None)
+
+            b_done = threading.Event()
+
+            def thread_b():
+                ll.set_trickery_enabled(v)
+                b_done.set()
+
+            ta = threading.Thread(target=thread_a, daemon=True)
+            ta.start()
+            if not paused.wait(5):
+                # fewer than k line events in the detection: every pause point has been explored
+                resume.set()
+                ta.join(30)
+                break
+            tb = threading.Thread(target=thread_b, daemon=True)
+            tb.start()
+            b_done.wait(0.05)      # B either returns at once or blocks until A leaves the self-test
+            resume.set()
+            ta.join(30)
+            tb.join(30)
+            race_cases += 1
+            res.evaluations += 1
+            res.count("detection_race_cases")
+            res.nontrivial(interp, "detection-race", k, v)
+            got = {}
+
+            def thread_c():
+                got["mode"] = observe_mode()
+
+            tc = threading.Thread(target=thread_c, daemon=True)
+            tc.start()
+            tc.join(30)
+            expected = "trickery" if v else "referents"
+            mine = observe_mode()
+            if "exc" in a_result or got.get("mode") != expected or mine != expected:
+                res.violation(kind="setter overlapping auto-detection lost", paused_at_line_event=k, value=v,
+                              expected=expected, other_thread_sees=got.get("mode"), this_thread_sees=mine,
+                              detection_thread=a_result, interp=interp)
+        else:
+            continue
+        break
+    ll.set_trickery_enabled(None)
+
     # concurrent stress: no ordering claim, only "no exception, a definite mode each time"
     stop = threading.Event()
     errors = []
